@@ -344,7 +344,7 @@ func (g *Gen) offCurveEnc() []byte {
 
 func (g *Gen) wrongLen(n int) (b []byte, isNil bool) {
 	rng := g.rng
-	lens := []int{0, 1, n - 1, n + 1, 2 * n, 31, 33, 63, 65, 200}
+	lens := []int{0, 1, n - 1, n + 1, 2 * n, n / 2, 31, 33, 63, 65, 200, 16, 32, 64, 128}
 	k := rng.Intn(len(lens) + 1)
 	if k == len(lens) {
 		return nil, true
@@ -1418,7 +1418,7 @@ func (g *Gen) enumMisuse() {
 				continue
 			}
 			if op.Multi {
-				ns := []int{1, 2, 3, 4, 5, 8, 16, 17, 32}
+				ns := []int{1, 2, 3, 4, 5, 8, 16, 17, 32, 64, 65, 129, 257}
 				for _, n := range ns {
 					for j := 0; j < n; j++ {
 						if n > 5 && j != 0 && j != n-1 && j != n/2 && j != 13%n {
@@ -1534,7 +1534,7 @@ func (g *Gen) enumMisuse() {
 func (g *Gen) enumReject() {
 	rng := g.rng
 	w := g.r.W
-	lens := func(n int) []int { return []int{0, 1, n - 1, n + 1, 2 * n, 31, 33, 63, 65, 200} }
+	lens := func(n int) []int { return []int{0, 1, n - 1, n + 1, 2 * n, n / 2, 31, 33, 63, 65, 200, 16, 32, 64, 128} }
 	for d := 0; d < g.cfg.EnumDraws; d++ {
 		for _, op := range Alphabet {
 			if !op.Fallible {
